@@ -198,7 +198,8 @@ func readOps(e *v1x.Env, universe [][]byte, c *fw.Ctx) []fop {
 			vsl = append(vsl, append([]byte(nil), v...))
 			return false
 		})
-		return fmt.Sprint(lv) + renderPairs(ks, vsl), err
+		// the version range the fresh handle discovered is part of the result
+		return fmt.Sprint(lv, h.AvailableVersions(), h.VersionExists(e.M.First), h.VersionExists(e.M.Latest)) + renderPairs(ks, vsl), err
 	})
 	add("GetLatestVersion", func(t *iavl.MutableTree) (string, error) {
 		h := iavl.NewMutableTree(storeOf(t), 0, true, iavl.NewNopLogger())
